@@ -8,3 +8,4 @@ RUSTUP_TOOLCHAIN=1.98.1 CARGO_NET_OFFLINE=true cargo build --offline
 cd "$(dirname "$0")/.." 2>/dev/null || true
 python3 "$(dirname "$0")/../vx/bounded.py" jsonrt quick >/dev/null 2>&1 || true
 python3 "$(dirname "$0")/../vx/bounded.py" gqlrt quick >/dev/null 2>&1 || true
+python3 "$(dirname "$0")/../vx/bounded.py" srcmap quick >/dev/null 2>&1 || true
